@@ -124,6 +124,13 @@ func (*vvEngine) Exec(line string) (obs string, viol string) {
 	if v := vvMonitor(line, obs); v != "" {
 		viol = v
 	}
+	if tk := strings.Fields(line); len(tk) == 3 && tk[0] == "wide" && obs != "bad-op" {
+		n, _ := strconv.Atoi(tk[1])
+		k, _ := strconv.Atoi(tk[2])
+		if v := vvWide(n, k); v != "" {
+			viol = "WIDE: " + v
+		}
+	}
 	return
 }
 
@@ -223,6 +230,37 @@ func vvMonitor(line, obs string) string {
 	return ""
 }
 
+func wideVV(n int, prefix string, c uint64) cluster.VersionVector {
+	m := make(map[string]uint64, n)
+	for i := 0; i < n; i++ {
+		m[fmt.Sprintf("%s%d", prefix, i)] = c
+	}
+	return cluster.VerifVVFromMap(m)
+}
+
+// vvWide: the lattice laws on wide vectors, checked on the real outputs (independent of the model).
+func vvWide(n, k int) string {
+	w, e := wideVV(n, "w", 1), wideVV(k, "e", 2)
+	a, b := cluster.VerifVVMap(w.Merge(e)), cluster.VerifVVMap(e.Merge(w))
+	if len(a) != n+k || len(b) != n+k {
+		return fmt.Sprintf("Merge of a %d-entry and a disjoint %d-entry vector has %d / %d entries (other order), the join has %d", n, k, len(a), len(b), n+k)
+	}
+	if !sameMap(a, b) {
+		return fmt.Sprintf("Merge is not commutative on a %d-entry and a %d-entry vector", n, k)
+	}
+	r := w.Merge(e)
+	if o := r.Compare(w); k > 0 && showOrder(o) != "after" {
+		return fmt.Sprintf("Merge(W,E) is %s W (|W|=%d, |E|=%d), the join is after it", showOrder(o), n, k)
+	}
+	if o := r.Compare(e); n > 0 && k > 0 && showOrder(o) != "after" {
+		return fmt.Sprintf("Merge(W,E) is %s E (|W|=%d, |E|=%d), the join is after it", showOrder(o), n, k)
+	}
+	if len(cluster.VerifVVMap(w)) != n || len(cluster.VerifVVMap(e)) != k {
+		return "Merge modified an operand"
+	}
+	return ""
+}
+
 func vvExec(line string) (obs string) {
 	tk := strings.Fields(line)
 	if len(tk) == 0 {
@@ -271,6 +309,21 @@ func vvExec(line string) (obs string) {
 			return s + mutated(a, ma)
 		}
 		return showVVMap(cluster.VerifVVMap(r)) + mutated(a, ma)
+	case tk[0] == "wide" && len(tk) == 3:
+		// wide <n> <k>: W = {w0..w(n-1) -> 1}, E = {e0..e(k-1) -> 2}: the join laws on vectors around the
+		// serialisation limit, summarised (the Go side also checks every law on the maps, see vvWide)
+		n, err1 := strconv.Atoi(tk[1])
+		k, err2 := strconv.Atoi(tk[2])
+		if err1 != nil || err2 != nil || n < 0 || k < 0 || n > 70000 || k > 8 {
+			return "bad-op"
+		}
+		w, e := wideVV(n, "w", 1), wideVV(k, "e", 2)
+		r := w.Merge(e)
+		g := ""
+		for i := 0; i < k; i++ {
+			g += fmt.Sprintf(",%d", r.Get(fmt.Sprintf("e%d", i)))
+		}
+		return fmt.Sprintf("size=%d get=%s c1=%s c2=%s", len(cluster.VerifVVMap(r)), strings.TrimPrefix(g, ","), showOrder(r.Compare(e)), showOrder(e.Compare(r)))
 	case tk[0] == "get" && len(tk) == 3:
 		ma, ok1 := parseVVMap(tk[1])
 		if !ok1 {
@@ -361,6 +414,17 @@ func (e *vvEngine) Generate(c *Ctx) {
 				c.R.Nontrivial()
 			}
 			c.Do("merge " + a + " " + b)
+		}
+	}
+	// (1b) vectors around the entry limit of the codec (65535): the join laws have no size exception
+	for _, n := range []int{0, 1, 1000, 65534, 65535, 65536, 70000} {
+		for _, k := range []int{0, 1, 3} {
+			c.Case(fmt.Sprintf("wide %d %d", n, k))
+			c.R.Nontrivial()
+			c.R.Hit("wide")
+			if n >= 65535 && k > 0 {
+				c.R.Hit("wide:over-limit")
+			}
 		}
 	}
 	// (2) increment on every vector x every key + invalid names
